@@ -892,3 +892,94 @@ class FragText(str):
 
 def ftxt(node):
     return FragText(node)
+
+
+# ---------------------------------------------------------------------------
+# Inlining of simple lets: `let t = f(a, b); g(t)` reads as `g(f(a, b))`.
+# Naming a sub-expression is the commonest behaviour-preserving edit; rules that
+# compare statement shapes call this first so that they see through it.
+
+_SIMPLE_KINDS = {"Path", "Lit", "Call", "Cast", "Paren", "Tuple", "Struct", "Binary", "Unary", "Ref", "Field", "MethodCall"}
+_SIMPLE_METHODS = {"into", "clone", "abs", "neg", "sqrt", "min", "max", "recip", "square", "to_owned", "as_ref", "get", "len", "lower", "upper"}
+
+
+def _is_simple_init(e):
+    """an initialiser that reads only locals: no `self`, no indexing, no macro,
+    no `?`, no closure, no block; method calls only from a fixed pure list"""
+    if e is None:
+        return False
+    for n in walk(e):
+        k = n.get("k")
+        if k is None:
+            continue
+        if k[0] == "P" and k[1:2].isupper():
+            return False
+        if k not in _SIMPLE_KINDS and not k.startswith("Type") and k not in ("QPath", "Seg", "FieldValue", "GenericArg"):
+            return False
+        if k == "Path" and path_segs(n) == ["self"]:
+            return False
+        if k == "MethodCall" and n["method"] not in _SIMPLE_METHODS:
+            return False
+        if k == "Unary" and n.get("op") == "*":
+            return False
+    return True
+
+
+def _subst(node, name, repl):
+    if isinstance(node, list):
+        return [_subst(x, name, repl) for x in node]
+    if not isinstance(node, dict):
+        return node
+    if node.get("k") == "Path" and ident(node) == name:
+        return {"k": "Paren", "e": repl, "ln": node.get("ln"), "c": node.get("c")} if repl.get("k") in ("Binary", "Unary", "Cast") else repl
+    out = {k: (_subst(v, name, repl) if isinstance(v, (dict, list)) and k != "tokens" else v) for k, v in node.items()}
+    if out.get("short") and out.get("e") is not node.get("e") and ident(node.get("e")) == name:
+        out["short"] = False
+    return out
+
+
+def _uses(node, name):
+    n_uses = 0
+    for n in walk(node):
+        if n.get("k") == "Path" and ident(n) == name:
+            n_uses += 1
+        elif n.get("k") == "Macro" and name in _WORD.findall(tokens_str(n) if n.get("tokens") else ""):
+            if not n.get("args"):
+                return 99
+        elif n.get("k") == "PIdent" and n["name"] == name:
+            return 99  # shadowed later: stay away
+    return n_uses
+
+
+def inline_simple_lets(stmts):
+    """statement list with every single-use simple `let name = init;` folded into its use
+    (same block, the use not under a loop or closure)"""
+    stmts = list(stmts)
+    changed = True
+    while changed:
+        changed = False
+        for i, s in enumerate(stmts):
+            if s.get("k") != "Let" or s.get("else") or s["pat"].get("k") not in ("PIdent", "PType"):
+                continue
+            p = s["pat"] if s["pat"].get("k") == "PIdent" else s["pat"].get("pat", {})
+            if p.get("k") != "PIdent" or p.get("mut") or p.get("ref") or p.get("sub"):
+                continue
+            name = p["name"]
+            init = s.get("init")
+            if not _is_simple_init(init):
+                continue
+            rest = stmts[i + 1:]
+            if sum(_uses(r, name) for r in rest) != 1:
+                continue
+            # the single use must not sit under a loop or a closure
+            under = False
+            for r in rest:
+                for n in walk(r):
+                    if n.get("k") in ("For", "While", "Loop", "Closure") and _uses(n, name):
+                        under = True
+            if under:
+                continue
+            stmts = stmts[:i] + [_subst(r, name, init) for r in rest]
+            changed = True
+            break
+    return stmts
